@@ -126,21 +126,26 @@ example : Ex.nodesOf (generateGraph (fun _ _ => false) "/r/pkg".toList "pkg".toL
 
 /-! ## layers -/
 
-/-- the order in which the layers were DEFINED does not matter, provided the layers (regexes expanded over the modules of
-    the graph) do not overlap: no identifier is claimed by two layers with different names. Layer names need not be
-    distinct, `layerOf` may report mismatches, the rule may be unfinished or ill-configured. -/
+/-- the order in which the layers were DEFINED does not matter — no hypothesis (since the repair of
+    `LayerRuleMatcher._update_layer_mapping`): if the mapping the rule uses assigns some module identifier to two layers
+    with different names, the rule raises `LayerMismatch` for EVERY definition order; otherwise the lenient detector sees
+    the same layer of every module and the same set of layer names. Layer names need not be distinct (the builder forbids
+    duplicates, the theorem does not need that), `layerOf` may report mismatches, the rule may be unfinished or
+    ill-configured. -/
 theorem perm_layers (mt : Str → Str → Bool) (larch larch' : LArch) (rule : Option RuleState) (g : PGraph Str)
-    (hp : larch.Perm larch') (hd : layersDisjoint mt g.nodes larch = true) :
+    (hp : larch.Perm larch') :
     (assertAppliesLayer mt ⟨some larch, rule⟩ g).cls = (assertAppliesLayer mt ⟨some larch', rule⟩ g).cls :=
-  Pta.perm_layers_lemma mt larch larch' rule g hp hd
+  Pta.perm_layers_lemma mt larch larch' rule g hp
 
-/-- the finer form: only the mapping that THIS rule uses (the regexes occurring in the rule expanded, all other regex
-    layers contributing nothing) has to be consistent -/
+/-- the same one level down, for the rule matcher -/
 theorem perm_layers_rule (mt : Str → Str → Bool) (g : PGraph Str) (a a' : LArch) (b : Behavior) (ir : Bool)
-    (ss os : List Filter) (hp : a.Perm a')
-    (hc : (updateLayerMap mt g.nodes a (((ss ++ os).filter (·.isRegex)).map (·.id))).consistent = true) :
+    (ss os : List Filter) (hp : a.Perm a') :
     (matchLayerRule mt g a b ir ss os).cls = (matchLayerRule mt g a' b ir ss os).cls :=
-  Pta.matchLayerRule_perm_layers_lemma mt g a a' b ir ss os hp hc
+  Pta.matchLayerRule_perm_layers_lemma mt g a a' b ir ss os hp
+
+/-- the check itself does not depend on the definition order -/
+theorem consistent_perm (m m' : LayerMap) (hp : m.Perm m') : m.consistent = m'.consistent :=
+  Pta.consistent_perm hp
 
 namespace Ex
 def g : PGraph Str := buildGraph ["x".toList, "y".toList] [absImport "x".toList "y".toList] none
@@ -152,22 +157,31 @@ def rule : RuleState := mkRule false false true true false [.name "x".toList] [.
 def lc : LArch := [("A".toList, [.name "x".toList]), ("B".toList, [.regex "y".toList])]
 def ld : LArch := [("B".toList, [.regex "y".toList]), ("A".toList, [.name "x".toList])]
 def rule2 : RuleState := mkRule false false true true false [.name "x".toList] [.regex "y".toList]
+/-- a rule on the overlapping architecture `la` / `lb` that does not mention the regex of layer B -/
+def rule3 : RuleState := mkRule false false true true false [.name "x".toList] [.name "y".toList]
 end Ex
 
-/-- without the hypothesis: module `x` is listed in layer A and matched by the regex of layer B (the builder accepts
-    this); `x` is attributed to the layer defined LAST, so "A should not access B" passes for one definition order
-    and fails for the other -/
-theorem perm_layers_counterexample :
+/-- the former counterexample (before the repair "A should not access B" passed for one definition order and failed for
+    the other): module `x` is listed in layer A and matched by the regex of layer B (the builder accepts this); now BOTH
+    definition orders raise `LayerMismatch` -/
+theorem perm_layers_overlap_rejected :
     runLArch [.layer "A".toList, .containingModules ["x".toList], .layer "B".toList, .matching "x|y".toList] = .ok Ex.la ∧
     Ex.la.Perm Ex.lb ∧ layersDisjoint Ex.mt Ex.g.nodes Ex.la = false ∧
-    (assertAppliesLayer Ex.mt ⟨some Ex.la, some Ex.rule⟩ Ex.g).cls = .pass ∧
-    (assertAppliesLayer Ex.mt ⟨some Ex.lb, some Ex.rule⟩ Ex.g).cls = .fail :=
+    assertAppliesLayer Ex.mt ⟨some Ex.la, some Ex.rule⟩ Ex.g = .err .layerMismatch ∧
+    assertAppliesLayer Ex.mt ⟨some Ex.lb, some Ex.rule⟩ Ex.g = .err .layerMismatch :=
   ⟨by rfl, List.Perm.swap _ _ _, by decide, by decide, by decide⟩
 
+/-- non-overlapping layers: a verdict, the same for both orders -/
 example : Ex.lc.Perm Ex.ld ∧ layersDisjoint Ex.mt Ex.g.nodes Ex.lc = true ∧
     (assertAppliesLayer Ex.mt ⟨some Ex.lc, some Ex.rule2⟩ Ex.g).cls = .fail ∧
     (assertAppliesLayer Ex.mt ⟨some Ex.ld, some Ex.rule2⟩ Ex.g).cls = .fail :=
   ⟨List.Perm.swap _ _ _, by decide, by decide, by decide⟩
+
+/-- the check looks at the mapping THIS rule uses: a regex layer whose pattern does not occur in the rule contributes
+    nothing (as in `_replace_regex_specified_modules_with_actual_modules`), so the overlapping architecture is not
+    rejected by a rule that mentions only names — and the verdict is again the same for both orders -/
+example : (assertAppliesLayer Ex.mt ⟨some Ex.la, some Ex.rule3⟩ Ex.g).cls = .fail ∧
+    (assertAppliesLayer Ex.mt ⟨some Ex.lb, some Ex.rule3⟩ Ex.g).cls = .fail := by decide
 
 /-- the order in which the subject / object filters of a layer rule are listed does not matter (no hypothesis) … -/
 theorem perm_layer_rule_filters (mt : Str → Str → Bool) (g : PGraph Str) (a : LArch) (s o n dir exc : Bool)
@@ -230,24 +244,55 @@ theorem applyAll_error_kind_counterexample :
 
 /-! ## diagram lines -/
 
-/-- `PumlParser.parse` is tag slicing followed by the aggregation of the per-line results -/
+/-- `PumlParser.parse` is tag slicing followed by `_unify` on the per-line results: the alias check of
+    `_get_modules_by_alias` (parsing error when one alias is declared for two components), then the aggregation -/
 theorem pumlParse_aggregate (content : Str) :
-    pumlParse content = (pumlBody (pyStrip content)).map fun body =>
-      pumlAggregate ((splitLines body).flatMap lineModules) ((splitLines body).filterMap lineDependency) :=
+    pumlParse content = (pumlBody (pyStrip content)).bind fun body =>
+      pumlUnify ((splitLines body).flatMap lineModules) ((splitLines body).filterMap lineDependency) :=
   Pta.pumlParse_aggregate_lemma content
 
-/-- permuting the lines of a diagram body yields the same module SET and the same dependency RELATION, provided no alias
-    is declared twice with different names (alias unification takes the LAST declaration of an alias) -/
-theorem diagram_lines_perm (lines lines' : List Str) (h : lines.Perm lines')
-    (hc : aliasesConsistent (lines.flatMap lineModules) = true) :
-    (∀ x, x ∈ (pumlAggregate (lines.flatMap lineModules) (lines.filterMap lineDependency)).modules ↔
-      x ∈ (pumlAggregate (lines'.flatMap lineModules) (lines'.filterMap lineDependency)).modules) ∧
-    (∀ k v, (pumlAggregate (lines.flatMap lineModules) (lines.filterMap lineDependency)).hasDep k v =
-      (pumlAggregate (lines'.flatMap lineModules) (lines'.filterMap lineDependency)).hasDep k v) :=
-  Pta.diagram_lines_perm_lemma lines lines' h hc
+/-- `SameDiagram`, spelled out: both outcomes are the parsing error, or both are results with the same module SET and
+    the same dependency RELATION -/
+theorem sameDiagram_iff (x y : Except ErrKind Parsed') :
+    SameDiagram x y ↔ (x = .error .pumlParsingError ∧ y = .error .pumlParsingError) ∨
+      ∃ p q, x = .ok p ∧ y = .ok q ∧ (∀ m, m ∈ p.modules ↔ m ∈ q.modules) ∧ (∀ k v, p.hasDep k v = q.hasDep k v) :=
+  Pta.sameDiagram_iff_lemma x y
+
+/-- permuting the lines of a diagram body — NO side condition any more: either both orders are rejected with the
+    parsing error (one alias declared for two components) or both yield the same module SET and the same dependency
+    RELATION. (`pumlUnify` = alias check + aggregation, i.e. everything `pumlParse` does behind the line recognisers.) -/
+theorem diagram_lines_perm (lines lines' : List Str) (h : lines.Perm lines') :
+    SameDiagram (pumlUnify (lines.flatMap lineModules) (lines.filterMap lineDependency))
+      (pumlUnify (lines'.flatMap lineModules) (lines'.filterMap lineDependency)) :=
+  Pta.diagram_lines_perm_lemma lines lines' h
+
+/-- the same for `pumlParse` on whole files whose tags are fine: the bodies have the same lines in a different order -/
+theorem diagram_parse_perm (content content' body body' : Str)
+    (hb : pumlBody (pyStrip content) = .ok body) (hb' : pumlBody (pyStrip content') = .ok body')
+    (h : (splitLines body).Perm (splitLines body')) :
+    SameDiagram (pumlParse content) (pumlParse content') :=
+  Pta.diagram_parse_perm_lemma content content' body body' hb hb' h
+
+/-- … and for files written as noise / `@startuml` / ARBITRARY raw lines / `@enduml` / noise -/
+theorem diagram_text_perm (noise1 noise2 : Str) (lines lines' : List Str) (h : lines.Perm lines')
+    (hl : ∀ l ∈ lines, '\n' ∉ l ∧ '@' ∉ l) (hn : isInfix "@enduml".toList noise2 = false) :
+    SameDiagram (pumlParse (linesText noise1 lines noise2)) (pumlParse (linesText noise1 lines' noise2)) :=
+  Pta.diagram_text_perm_lemma noise1 noise2 lines lines' h hl hn
+
+/-- such a file parses to `_unify` of the per-line results of its lines -/
+theorem parse_linesText (noise1 noise2 : Str) (lines : List Str) (hl : ∀ l ∈ lines, '\n' ∉ l ∧ '@' ∉ l)
+    (hn : isInfix "@enduml".toList noise2 = false) :
+    pumlParse (linesText noise1 lines noise2) = pumlUnify (lines.flatMap lineModules) (lines.filterMap lineDependency) :=
+  Pta.parse_linesText_lemma noise1 noise2 lines hl hn
 
 /-- the same at the level of the per-line results -/
 theorem aggregate_perm (modules modules' : List PModule) (rawDeps rawDeps' : List (Str × Str))
+    (hm : modules.Perm modules') (hd : rawDeps.Perm rawDeps') :
+    SameDiagram (pumlUnify modules rawDeps) (pumlUnify modules' rawDeps') :=
+  Pta.unify_perm_lemma modules modules' rawDeps rawDeps' hm hd
+
+/-- the aggregation step alone (behind a passed check), as before the repair -/
+theorem aggregate_perm_checked (modules modules' : List PModule) (rawDeps rawDeps' : List (Str × Str))
     (hm : modules.Perm modules') (hd : rawDeps.Perm rawDeps') (hc : aliasesConsistent modules = true) :
     (∀ x, x ∈ (pumlAggregate modules rawDeps).modules ↔ x ∈ (pumlAggregate modules' rawDeps').modules) ∧
     (∀ k v, (pumlAggregate modules rawDeps).hasDep k v = (pumlAggregate modules' rawDeps').hasDep k v) :=
@@ -259,17 +304,40 @@ def l2 : List Str := ["y --> c".toList, "x --> y".toList, "[b] as y".toList, "[m
 def l3 : List Str := ["[a] as x".toList, "[b] as x".toList, "x --> c".toList]
 def l4 : List Str := ["[b] as x".toList, "[a] as x".toList, "x --> c".toList]
 def agg (ls : List Str) : Parsed' := pumlAggregate (ls.flatMap lineModules) (ls.filterMap lineDependency)
+def unify (ls : List Str) : Except ErrKind Parsed' := pumlUnify (ls.flatMap lineModules) (ls.filterMap lineDependency)
 end Ex
 
+-- a genuine permutation on which the check passes; the two results differ as lists and agree as sets
+example : Ex.l1.Perm Ex.l2 := by decide
+example : okModules (Ex.unify Ex.l1) = some ["mod a".toList, "b".toList, "c".toList] ∧
+    okModules (Ex.unify Ex.l2) = some ["mod a".toList, "c".toList, "b".toList] := by decide
 example : aliasesConsistent (Ex.l1.flatMap lineModules) = true ∧ (Ex.agg Ex.l1).modules ≠ (Ex.agg Ex.l2).modules ∧
     (Ex.agg Ex.l1).hasDep "mod a".toList "b".toList = true ∧ (Ex.agg Ex.l2).hasDep "mod a".toList "b".toList = true := by
   decide
+-- hypotheses of `diagram_text_perm` / `parse_linesText`
+example : (∀ l ∈ Ex.l1, '\n' ∉ l ∧ '@' ∉ l) ∧ (∀ l ∈ Ex.l3, '\n' ∉ l ∧ '@' ∉ l) ∧
+    isInfix "@enduml".toList "\n' trailing @startuml junk".toList = false := by decide
+set_option maxRecDepth 10000 in
+example : linesText "junk\n".toList Ex.l3 "\n".toList =
+    "junk\n@startuml\n[a] as x\n[b] as x\nx --> c\n@enduml\n".toList := by decide
 
-/-- without the hypothesis: alias `x` declared for `a` and for `b`; the arrow `x --> c` is attributed to whichever
-    declaration comes last -/
-theorem diagram_lines_counterexample :
+/-- **repaired** (was `diagram_lines_counterexample`: alias `x` declared for `a` and for `b`, and the arrow `x --> c` was
+    attributed to whichever declaration came last). Now both line orders are rejected with the parsing error — at the
+    level of the per-line results and for the files themselves. -/
+theorem conflicting_alias_rejected :
     Ex.l3.Perm Ex.l4 ∧ aliasesConsistent (Ex.l3.flatMap lineModules) = false ∧
+    Ex.unify Ex.l3 = .error .pumlParsingError ∧ Ex.unify Ex.l4 = .error .pumlParsingError ∧
+    pumlParse (linesText [] Ex.l3 []) = .error .pumlParsingError ∧
+    pumlParse (linesText [] Ex.l4 []) = .error .pumlParsingError := by
+  refine ⟨List.Perm.swap _ _ _, by decide, Pta.eq_error_of_check_lemma _ (by decide), Pta.eq_error_of_check_lemma _ (by decide), ?_, ?_⟩
+  · rw [parse_linesText [] [] Ex.l3 (by decide) (by decide)]
+    exact Pta.eq_error_of_check_lemma _ (by decide)
+  · rw [parse_linesText [] [] Ex.l4 (by decide) (by decide)]
+    exact Pta.eq_error_of_check_lemma _ (by decide)
+
+/-- what used to go wrong is still visible in the aggregation step WITHOUT the check: it is the check that repairs it -/
+theorem aggregation_without_check_depends_on_order :
     (Ex.agg Ex.l3).hasDep "b".toList "c".toList = true ∧ (Ex.agg Ex.l4).hasDep "b".toList "c".toList = false :=
-  ⟨List.Perm.swap _ _ _, by decide, by decide, by decide⟩
+  ⟨by decide, by decide⟩
 
 end Pta.C15
